@@ -486,14 +486,14 @@ Section MetaP.
   Variable loads : list N -> option (option json).
   Variable D : list N.
   Variables fw_send fw_recv : event -> bool.
-  Variable handler : event -> option (option json).
+  Variable handler : event -> hres.
   Variable b_chan : json.
 
   Notation b_packet := (b_packet excl dumps D fw_recv handler b_chan).
   Notation a_send := (a_send excl dumps D fw_send).
 
-  Definition dispatched (r : list event * list N * list N * bool * bool) : list event :=
-    let '(l, _, _, _, _) := r in l.
+  Definition dispatched (r : list event * list (nat * list N) * bool * bool) : list event :=
+    let '(l, _, _, _) := r in l.
 
   (* a call rejected by the receive firewall is never dispatched, whatever the packet *)
   Theorem firewall_recv : forall j e id, load_event excl j = Some (e, id) -> fw_recv e = false ->
@@ -515,7 +515,7 @@ Section MetaP.
     - destruct (load_value excl o); simpl; lia.
     - destruct (load_event excl j) as [[e id]|]; [|simpl; lia].
       destruct (fw_recv e).
-      + match goal with |- context [handler ?x] => destruct (handler x) as [[r|]|] end;
+      + match goal with |- context [handler ?x] => destruct (handler x) as [|r|[|]] end; cbv zeta;
           repeat match goal with |- context [if ?c then _ else _] => destruct c end;
           repeat match goal with |- context [match packet ?a ?b ?c with _ => _ end] => destruct (packet a b c) end;
           simpl; lia.
@@ -523,7 +523,7 @@ Section MetaP.
   Qed.
 
   (* an honest call packet whose event passes the firewall and has a handler runs exactly once *)
-  Theorem dispatch_exactly_once : forall e id r, wf_event e ->
+  Theorem dispatch_exactly_once : forall e id, wf_event e ->
     let e1 := {| ename := ename e; eargs := eargs e; ekwargs := ekwargs e; esuccess := esuccess e;
                  efailure := efailure e; enotify := enotify e; echannels := echannels e;
                  eattrs := apply_meta excl (dump_meta_ev excl e) [] |} in
@@ -531,14 +531,15 @@ Section MetaP.
                  efailure := efailure e; enotify := enotify e;
                  echannels := match echannels e with [] => [b_chan] | l => l end;
                  eattrs := apply_meta excl (dump_meta_ev excl e) [] |} in
-    is_miss (event_data excl e id) = false -> fw_recv e1 = true -> handler e2 = Some r ->
+    is_miss (event_data excl e id) = false -> fw_recv e1 = true -> handler e2 <> HNone ->
     dispatched (b_packet (event_data excl e id)) = [e2].
   Proof.
-    intros e id r Hwf e1 e2 Hm Hf Hh. unfold NodeProto.b_packet. rewrite Hm.
+    intros e id Hwf e1 e2 Hm Hf Hh. unfold NodeProto.b_packet. rewrite Hm.
     change (is_value (event_data excl e id)) with (@None (list (list N * json))).
     rewrite (serial e id Hwf). change (fw_recv _) with (fw_recv e1). rewrite Hf.
-    change (handler _) with (handler e2). rewrite Hh. destruct r as [r|]; [|reflexivity].
-    destruct (no_reply id); [reflexivity|]. destruct (packet dumps D _); reflexivity.
+    change (handler _) with (handler e2). cbv zeta.
+    destruct (handler e2) as [|r|late]; [congruence| |];
+      (destruct (no_reply id); [reflexivity|]; destruct (packet dumps D _); reflexivity).
   Qed.
 
   (* a call rejected by the send firewall writes nothing and consumes no id *)
@@ -643,14 +644,14 @@ Section MetaP.
     - eapply ids_ok_same; [exact H|reflexivity..].
     - destruct (take n (wab s)) as [d rest]. destruct d; [exact H|].
       unfold b_read. cbn [b_buf]. destruct (feed json _ D _ _) as [js buf].
-      destruct (b_packets _ _ _ _ _ _ js) as [[[[l o] ol] ab] bd]. eapply ids_ok_same; [exact H|reflexivity..].
+      destruct (b_packets _ _ _ _ _ _ js) as [[[l o] ab] bd]. eapply ids_ok_same; [exact H|reflexivity..].
     - destruct (take n (wba s)) as [d rest]. destruct d; [exact H|].
       unfold a_read. cbn [a_buf a_pend a_calls]. destruct (feed json _ D _ _) as [js buf].
       destruct (a_packets _ _ _ js) as [[calls ab] bd].
       eapply (ids_ok_filter _ s); [exact H|reflexivity..].
     - destruct (take_packet D (wab s)) as [d rest]. destruct d; [exact H|].
       unfold b_read. cbn [b_buf]. destruct (feed json _ D _ _) as [js buf].
-      destruct (b_packets _ _ _ _ _ _ js) as [[[[l o] ol] ab] bd]. eapply ids_ok_same; [exact H|reflexivity..].
+      destruct (b_packets _ _ _ _ _ _ js) as [[[l o] ab] bd]. eapply ids_ok_same; [exact H|reflexivity..].
     - destruct (take_packet D (wba s)) as [d rest]. destruct d; [exact H|].
       unfold a_read. cbn [a_buf a_pend a_calls]. destruct (feed json _ D _ _) as [js buf].
       destruct (a_packets _ _ _ js) as [[calls ab] bd].
@@ -739,28 +740,37 @@ Module Ex.
   Definition loads (b : list N) : option (option json) :=
     match b with [65] => Some (Some call_data) | [66] => Some (Some reply_data) | _ => Some None end.
   Definition D : list N := [126; 126; 126].
-  Definition final (h : event -> option (option json)) (cut : nat) : st :=
+  Definition final (h : event -> hres) (cut : nat) : st :=
     exec excl dumps loads D (fun _ => true) (fun _ => true) h (JStr [110]) 
          [OSend e0 MCall; OAB cut; OAB 0%nat; OBA cut; OBA 0%nat].
 
   Lemma roundtrip : forall cut, In cut [0; 1; 2; 3]%nat ->
-    map c_val (a_calls (final (fun _ => Some (Some result)) cut)) = [result]
-    /\ map c_fin (a_calls (final (fun _ => Some (Some result)) cut)) = [true]
-    /\ length (b_log (final (fun _ => Some (Some result)) cut)) = 1%nat.
+    map c_val (a_calls (final (fun _ => HVal result) cut)) = [result]
+    /\ map c_fin (a_calls (final (fun _ => HVal result) cut)) = [true]
+    /\ length (b_log (final (fun _ => HVal result) cut)) = 1%nat.
   Proof. intros cut H. simpl in H. repeat (destruct H as [<-|H]; [vm_compute; auto|]). contradiction. Qed.
 
-  (* the handler raises on the peer: the call is dispatched once, but the sender is never told *)
-  Lemma error_lost : map c_fin (a_calls (final (fun _ => Some None) 0%nat)) = [false]
-    /\ length (b_log (final (fun _ => Some None) 0%nat)) = 1%nat.
-  Proof. vm_compute. auto. Qed.
-  Lemma error_lost_ex : exists h cut,
-    length (b_log (final h cut)) = 1%nat /\ map c_fin (a_calls (final h cut)) = [false].
-  Proof. exists (fun _ => Some None), 0%nat. destruct error_lost as [H1 H2]. split; assumption. Qed.
+  (* the handler raises on the peer: the call is dispatched once and the error flag comes back *)
+  Definition reply_err := value_data excl (JInt 0%Z) (JBool true) JERR loaded.
+  Definition loads_err (b : list N) : option (option json) :=
+    match b with [65] => Some (Some call_data) | [66] => Some (Some reply_err) | _ => Some None end.
+  Definition final_err (late : bool) (cut : nat) : st :=
+    exec excl dumps loads_err D (fun _ => true) (fun _ => true) (fun _ => HRaise late) (JStr [110])
+         [OSend e0 MCall; OAB cut; OAB 0%nat; OBA cut; OBA 0%nat].
+  Lemma error_returns : forall late cut, In cut [0; 2]%nat ->
+    length (b_log (final_err late cut)) = 1%nat
+    /\ map c_fin (a_calls (final_err late cut)) = [true]
+    /\ map c_err (a_calls (final_err late cut)) = [Some (JBool true)]
+    /\ map c_val (a_calls (final_err late cut)) = [JERR].
+  Proof.
+    intros late cut H. simpl in H.
+    destruct late; repeat (destruct H as [<-|H]; [vm_compute; auto|]); contradiction.
+  Qed.
 
   (* a send without result: the peer runs the event once and answers; the answer is ignored, nobody is
      resumed, the id stays used up; a following call gets the next id *)
   Definition final_nores (m : smode) : st :=
-    exec excl dumps loads D (fun _ => true) (fun _ => true) (fun _ => Some (Some result)) (JStr [110])
+    exec excl dumps loads D (fun _ => true) (fun _ => true) (fun _ => HVal result) (JStr [110])
          [OSend e0 m; OABP; OBAP; OSend e0 MCall].
   Lemma noresult_ex : forall m, In m [MNoResAttr; MNoResApi] ->
     length (b_log (final_nores m)) = 1%nat /\ map c_fin (a_calls (final_nores m)) = [false; false]
